@@ -128,9 +128,12 @@ class _WProxy:
 
 
 class FaultFS:
-    def __init__(self, root, plan=None):
+    def __init__(self, root, plan=None, refuse_new=False):
         self.root = os.path.realpath(root)
         self.plan = plan          # None or (index, kind)
+        # environment, not a fault: the directory does not let this user create, remove or rename entries (a drop folder,
+        # a root-owned download directory); existing files stay writable
+        self.refuse_new = refuse_new
         self.trace = []
         self.frozen = False
         self.fired = False
@@ -201,6 +204,8 @@ class FaultFS:
             rels = [self._rel(a) for a in args[:npaths]]
             if not any(r is not None for r in rels):
                 return real(*args, **kw)
+            if self.refuse_new and not self.frozen and name not in ("truncate", "chmod"):
+                raise PermissionError(errno.EACCES, os.strerror(errno.EACCES), os.fspath(args[0]))
             act = self._op(name, "->".join(str(r) for r in rels))
             if act == "drop":
                 return None
@@ -215,6 +220,8 @@ class FaultFS:
         if rel is None:
             return real_open(file, mode, buffering, encoding, errors, newline, closefd, opener)
         writing = any(ch in mode for ch in "wax+")
+        if writing and self.refuse_new and not self.frozen and not os.path.lexists(file):
+            raise PermissionError(errno.EACCES, os.strerror(errno.EACCES), os.fspath(file))
         if not writing:
             act = self._op("open-read", rel)
             if act == "drop":
@@ -241,6 +248,8 @@ class FaultFS:
         if rel is None:
             return real(path, flags, mode, dir_fd=dir_fd)
         mutating = flags & (os.O_WRONLY | os.O_RDWR | os.O_CREAT | os.O_TRUNC | os.O_APPEND)
+        if mutating and self.refuse_new and not self.frozen and (flags & os.O_CREAT) and not os.path.lexists(path):
+            raise PermissionError(errno.EACCES, os.strerror(errno.EACCES), os.fspath(path))
         if mutating:
             act = self._op("os.open-write", rel)
             if act == "drop":
